@@ -251,7 +251,7 @@ CHECKS = {
         technique="Coq proof of resynchronisation, tiling, locality and shift-invariance (containment) over a Gallina model of the parser + exhaustive single-token damage campaign on the implementation"),
     "C01": dict(
         category="other",
-        text="Machine-checked (Props/C01.v, 13 theorems), for ALL documents and ALL histories of notifications: the text and "
+        text="Machine-checked (Props/C01.v, 21 theorems), for ALL documents and ALL histories of notifications: the text and "
              "the token stream of the incrementally updated document are those of a fresh analysis and the lexer never fails "
              "(from C07); the tree returned by parser::update carries syntax errors only, whatever old tree it started from "
              "(C01_no_stale_messages: remove_messages reaches every node), so table and build/semantic diagnostics are recomputed "
@@ -260,6 +260,14 @@ CHECKS = {
              "leaves the document untouched; the incremental parser without an old tree IS the scratch parser "
              "(C01_inc_none_is_scratch). The remaining hypothesis - parser::update agrees with parser::parse - is REFUTED for the "
              "code as it is (C01_tree_refuted, C01_full_statement_refuted): known finding C01-incparse, not repaired (redesign). "
+             "POSITIVE part of the tree layer: for every syntactically valid text without a comment directly in front of a comma, "
+             "every history of WHITE-SPACE edits (blanks replaced by blanks away from every token's look-ahead - a textual, checkable "
+             "class, C01_gap_edit_is_blank) yields exactly the freshly analysed document, through the full AnalyzedSource::update "
+             "on documents with any number of semantic diagnostics (C01_holds_for_white_space_edits_document, "
+             "C01_holds_for_blank_edits, C01_holds_for_empty_token_change: a simulation of the scratch parser by the incremental "
+             "one, one lemma per combinator); each side condition is necessary - three further divergence mechanisms of the real "
+             "algorithm are pinned as evaluated witnesses (C01_blank_needs_*: expression errors lost on reuse, `expect` retrying "
+             "from an advanced position, comment before a list comma). "
              "The check decides every generated history by (1) correspondence: the transcription of AnalyzedSource::update incl. "
              "the pinned incremental parser must reproduce the real updated document after every notification, and (2) an oracle "
              "update(doc) == new(text) field by field: a divergence predicted by the model is the known finding, any other "
